@@ -48,7 +48,7 @@ def run(prop, tier, seed):
         gens.append({"module": M, "cfg": n, "workers": 4, "opts": {"kinds": KINDS[kind], "bases": bases},
                      "extra_defs": {n: cfg(cl, kind, acts, (2 if cl == "ClD" or prop == "C12" else 3) if quick else 3, 2, True)}})
         n = "%s_s%s.cfg" % (prop, tagc)
-        gens.append({"module": M, "cfg": n, "workers": 8, "simulate": (500 if prop == "C12" else 250) if quick else 20000, "depth": 14, "seed": seed,
+        gens.append({"module": M, "cfg": n, "workers": 8, "simulate": (500 if prop == "C12" else 1000 if prop == "C13" else 250) if quick else 20000, "depth": 14, "seed": seed,
                      "opts": {"kinds": KINDS[kind], "bases": bases, "watch": True},
                      "extra_defs": {n: cfg(cl, kind, acts, 8, 3, True)}})
     with core.Scratch() as scratch:
